@@ -171,8 +171,9 @@ func TestC15bStoredValues(t *testing.T) {
 			}
 			if n.Fatal == nil {
 				single, ranges := warnedKeys(n.Warn)
-				if key != 0 && key&0x10000 == 0 && !keyWarned(key, single, ranges) {
-					n.Failf("outbound record %#x differs from what was saved in one byte, yet AdoptSession reports nothing about it (warnings %v)", key, n.Warn)
+				// (the client-identifier record is the open finding F17, judged by C16's probe)
+				if key != 0 && !keyWarned(key, single, ranges) {
+					n.Failf("record %#x differs from what was saved in one byte, yet AdoptSession reports nothing about it (warnings %v)", key, n.Warn)
 				}
 				n.App.Step()
 				n.SettleReader("first connect of the adopted client")
